@@ -88,6 +88,8 @@ pub enum Out {
     Res(Result<Token, ErrTok>),
     Vec(Vec<Token>),
     ResVec(Result<Vec<Token>, ErrTok>),
+    PVec(Vec<PTok>),
+    PResVec(Result<Vec<PTok>, ErrTok>),
 }
 
 pub enum PollOut {
@@ -477,6 +479,34 @@ impl Subject for STJA {
     relocate!();
 }
 
+/// joins over outputs without drop glue
+pub struct SJAP(pub JoinAll<ScriptFut<PlainND>>);
+impl Subject for SJAP {
+    fn poll(&mut self, cx: &mut Context<'_>) -> PollOut {
+        match Pin::new(&mut self.0).poll(cx) {
+            Poll::Pending => PollOut::Pending,
+            Poll::Ready(v) => PollOut::Item(Out::PVec(v)),
+        }
+    }
+    fn obs(&self) -> Obs {
+        Obs::default()
+    }
+    relocate!();
+}
+pub struct STJAP(pub TryJoinAll<ScriptFut<TryND>>);
+impl Subject for STJAP {
+    fn poll(&mut self, cx: &mut Context<'_>) -> PollOut {
+        match Pin::new(&mut self.0).poll(cx) {
+            Poll::Pending => PollOut::Pending,
+            Poll::Ready(v) => PollOut::Item(Out::PResVec(v)),
+        }
+    }
+    fn obs(&self) -> Obs {
+        Obs::default()
+    }
+    relocate!();
+}
+
 // ---- construction ------------------------------------------------------------------------------
 
 /// How a subject is built.
@@ -484,7 +514,8 @@ impl Subject for STJA {
 pub struct Cfg {
     /// bounded capacity / adapter limit n / argument of with_capacity
     pub cap: usize,
-    /// collections: 0 = new(cap) resp. new(); 1 = with_capacity(cap) (unbounded only); 2 = collect(initial)
+    /// collections: 0 = new(cap) resp. new(); 1 = with_capacity(cap) (unbounded only); 2 = collect(initial);
+    /// joins: 2 = outputs with drop glue, 3 = outputs without drop glue
     pub ctor: u8,
     /// children present from the start (collect / join inputs / merge sources)
     pub initial: Vec<Plan>,
@@ -622,11 +653,19 @@ pub fn build(subj: Subj, cfg: &Cfg) -> Box<dyn Subject> {
         }
         Subj::JA => {
             let ids = initial_ids(cfg, Role::Fut);
-            Box::new(SJA(sut(|| join_all(ids.into_iter().map(ScriptFut::<Plain>::new)))))
+            if cfg.ctor == 3 {
+                Box::new(SJAP(sut(|| join_all(ids.into_iter().map(ScriptFut::<PlainND>::new)))))
+            } else {
+                Box::new(SJA(sut(|| join_all(ids.into_iter().map(ScriptFut::<Plain>::new)))))
+            }
         }
         Subj::TJA => {
             let ids = initial_ids(cfg, Role::Fut);
-            Box::new(STJA(sut(|| try_join_all(ids.into_iter().map(ScriptFut::<Try>::new)))))
+            if cfg.ctor == 3 {
+                Box::new(STJAP(sut(|| try_join_all(ids.into_iter().map(ScriptFut::<TryND>::new)))))
+            } else {
+                Box::new(STJA(sut(|| try_join_all(ids.into_iter().map(ScriptFut::<Try>::new)))))
+            }
         }
     }
 }
